@@ -2702,10 +2702,10 @@ Ops!(
     b"y*y*w*"     , [0x01, 0x54        ], X, VEX_OP | AUTO_VEXL, AVX;
 ]
 "vblendpd" = [
-    b"y*y*w*ib"   , [0x03, 0x0D        ], X, VEX_OP | AUTO_VEXL | ENC_MR | PREF_66, AVX;
+    b"y*y*w*ib"   , [0x03, 0x0D        ], X, VEX_OP | AUTO_VEXL | PREF_66, AVX;
 ]
 "vblendps" = [
-    b"y*y*w*ib"   , [0x03, 0x0C        ], X, VEX_OP | AUTO_VEXL | ENC_MR | PREF_66, AVX;
+    b"y*y*w*ib"   , [0x03, 0x0C        ], X, VEX_OP | AUTO_VEXL | PREF_66, AVX;
 ]
 "vblendvpd" = [
     b"y*y*w*y*"   , [0x03, 0x4B        ], X, VEX_OP | AUTO_VEXL | PREF_66, AVX;
@@ -3295,10 +3295,10 @@ Ops!(
     b"yoyoyo"     , [0x01, 0xC2, 0x07  ], X, VEX_OP | PREF_F3 | IMM_OP, AVX;
 ]
 "vcmppd" = [
-    b"y*y*w*ib"   , [0x01, 0xC2        ], X, VEX_OP | AUTO_VEXL | ENC_MR | PREF_66, AVX;
+    b"y*y*w*ib"   , [0x01, 0xC2        ], X, VEX_OP | AUTO_VEXL | PREF_66, AVX;
 ]
 "vcmpps" = [
-    b"y*y*w*ib"   , [0x01, 0xC2        ], X, VEX_OP | AUTO_VEXL | ENC_MR, AVX;
+    b"y*y*w*ib"   , [0x01, 0xC2        ], X, VEX_OP | AUTO_VEXL, AVX;
 ]
 "vcmpsd" = [
     b"yoyomqib"   , [0x01, 0xC2        ], X, VEX_OP | PREF_F2, AVX;
@@ -3487,7 +3487,7 @@ Ops!(
     b"yoyowoib"   , [0x03, 0x41        ], X, VEX_OP | PREF_66, AVX;
 ]
 "vdpps" = [
-    b"y*y*w*ib"   , [0x03, 0x40        ], X, VEX_OP | AUTO_VEXL | ENC_MR | PREF_66, AVX;
+    b"y*y*w*ib"   , [0x03, 0x40        ], X, VEX_OP | AUTO_VEXL | PREF_66, AVX;
 ]
 "verr" = [
     b"m!"         , [0x0F, 0x00        ], 4;
@@ -4232,7 +4232,7 @@ Ops!(
     b"woyo"       , [0x01, 0x11        ], X, VEX_OP | ENC_MR, AVX;
 ]
 "vmpsadbw" = [
-    b"y*y*w*ib"   , [0x03, 0x42        ], X, VEX_OP | AUTO_VEXL | ENC_MR | PREF_66, AVX;
+    b"y*y*w*ib"   , [0x03, 0x42        ], X, VEX_OP | AUTO_VEXL | PREF_66, AVX;
 ]
 "vmptrld" = [
     b"m!"         , [0x0F, 0xC7        ], 6, DEFAULT, VMX;
@@ -4327,7 +4327,7 @@ Ops!(
     b"y*y*w*"     , [0x01, 0xFD        ], X, VEX_OP | AUTO_VEXL | PREF_66, AVX;
 ]
 "vpalignr" = [
-    b"y*y*w*ib"   , [0x03, 0x0F        ], X, VEX_OP | AUTO_VEXL | ENC_MR | PREF_66, AVX;
+    b"y*y*w*ib"   , [0x03, 0x0F        ], X, VEX_OP | AUTO_VEXL | PREF_66, AVX;
 ]
 "vpand" = [
     b"y*y*w*"     , [0x01, 0xDB        ], X, VEX_OP | AUTO_VEXL | PREF_66, AVX;
@@ -4342,13 +4342,13 @@ Ops!(
     b"y*y*w*"     , [0x01, 0xE3        ], X, VEX_OP | AUTO_VEXL | PREF_66, AVX;
 ]
 "vpblendd" = [
-    b"y*y*w*ib"   , [0x03, 0x02        ], X, VEX_OP | AUTO_VEXL | ENC_MR | PREF_66, AVX2;
+    b"y*y*w*ib"   , [0x03, 0x02        ], X, VEX_OP | AUTO_VEXL | PREF_66, AVX2;
 ]
 "vpblendvb" = [
     b"y*y*w*y*"   , [0x03, 0x4C        ], X, VEX_OP | AUTO_VEXL | PREF_66, AVX;
 ]
 "vpblendw" = [
-    b"y*y*w*ib"   , [0x03, 0x0E        ], X, VEX_OP | AUTO_VEXL | ENC_MR | PREF_66, AVX;
+    b"y*y*w*ib"   , [0x03, 0x0E        ], X, VEX_OP | AUTO_VEXL | PREF_66, AVX;
 ]
 "vpbroadcastb" = [
     b"y*mb"       , [0x02, 0x78        ], X, VEX_OP | AUTO_VEXL | PREF_66, AVX2;
@@ -4960,10 +4960,10 @@ Ops!(
     b"yoyoyo"     , [0x01, 0x52        ], X, VEX_OP | PREF_F3, AVX;
 ]
 "vshufpd" = [
-    b"y*y*w*ib"   , [0x01, 0xC6        ], X, VEX_OP | AUTO_VEXL | ENC_MR | PREF_66, AVX;
+    b"y*y*w*ib"   , [0x01, 0xC6        ], X, VEX_OP | AUTO_VEXL | PREF_66, AVX;
 ]
 "vshufps" = [
-    b"y*y*w*ib"   , [0x01, 0xC6        ], X, VEX_OP | AUTO_VEXL | ENC_MR, AVX;
+    b"y*y*w*ib"   , [0x01, 0xC6        ], X, VEX_OP | AUTO_VEXL, AVX;
 ]
 "vsqrtpd" = [
     b"y*w*"       , [0x01, 0x51        ], X, VEX_OP | AUTO_VEXL | PREF_66, AVX;
